@@ -324,30 +324,30 @@ def run_mutex(spec):
     functions = ['FileLock.lock', 'FileLock.unlock', 'FileLock._try_lock', 'SemLock._try_lock', 'LockFile.__init__', 'LockFile.close']
     if not aut.fold_ok:
         return dict(status='unknown', stats=stats, detail='polling loop could not be folded (code after sleep differs from the attempt head)')
-    verdict, ninv, q, secs, names, inv = protocol.houdini(aut, sem, lambda s: protocol.in_cs_count(aut, s, k) <= limit)
-    stats.update(queries=q, solver_s=secs, invariant_conjuncts=ninv)
     out = dict(stats=stats, functions=functions, engine='E3')
+    # refutation first (bit-blasted BMC is cheap), then the inductive argument
+    T = a.get('T', 24)
+    r, dt, sched = protocol.bmc_bv(aut, sem, T, limit=limit)
+    stats.update(queries=T, solver_s=round(dt, 2), bmc_horizon=T, bmc_verdict=r)
+    if r == 'sat':
+        ok, detail = replay_schedule(kind, sched, n, patches)
+        out.update(status='sat', replayed=ok, detail=detail,
+                   cex=dict(kind=kind, k=k, n=n, schedule=[list(map(str, lab)) for lab in sched]))
+        return out
+    verdict, ninv, q, secs, names, inv = protocol.houdini(aut, sem, lambda s: protocol.in_cs_count(aut, s, k) <= limit)
+    stats.update(queries=stats['queries'] + q, solver_s=round(stats['solver_s'] + secs, 2), invariant_conjuncts=ninv)
     if verdict == 'proved':
         # (3) a released lock can be taken again: from every invariant state in which nobody holds
         # a flock, a contender at its attempt head that runs alone reaches the critical section
         ok3, q3 = reacquire(aut, sem, inv)
         stats['queries'] += q3
         if ok3:
-            out.update(status='unsat', detail='inductive invariant with %d conjuncts implies at most %d holder(s); re-acquisition holds' % (ninv, limit))
+            out.update(status='unsat', detail='inductive invariant with %d conjuncts implies at most %d holder(s); re-acquisition holds; '
+                                              'BMC to depth %d: %s' % (ninv, limit, T, r))
         else:
             out.update(status='unknown', detail='mutual exclusion proved but re-acquisition query failed')
         return out
-    # not provable: look for a concrete schedule
-    for T in (a.get('T', 16), 24):
-        r, dt, sched = protocol.bmc(aut, sem, T, limit=limit)
-        stats['queries'] += 1
-        stats['solver_s'] = round(stats['solver_s'] + dt, 2)
-        if r == 'sat':
-            ok, detail = replay_schedule(kind, sched, n, patches)
-            out.update(status='sat', replayed=ok, detail=detail,
-                       cex=dict(kind=kind, k=k, n=n, schedule=[list(map(str, lab)) for lab in sched]))
-            return out
-    out.update(status='unknown', detail='invariant not inductive enough (%s) and BMC found no schedule up to T=24' % verdict)
+    out.update(status='unknown', detail='no schedule up to T=%d (%s) but the inferred invariant does not imply the property (%s)' % (T, r, verdict))
     return out
 
 
